@@ -82,3 +82,28 @@ Theorem C01_end_to_end : forall D has_ns hcode rm rn rr re_ok ns w p abs steps,
   exists q, compile re_ok (print_ws w p) ns = Ok q /\ selects_path D has_ns hcode rm rn rr q abs steps.
 Proof. exact C01_end_to_end_ws. Qed.
 Print Assumptions C01_end_to_end.
+
+(* ---- the implementation-only cases on the complete binary tree of 2^19-1 elements (generator
+   families big-axes / big-union; go/internal/gen/trees.go RegularTree 2 d "x" = [regdoc d]): the
+   numbers attached to those cases as expectres= literals are what the document model dictates, for
+   every depth: the root has 2^(d+1)-1 descendants (all of them elements x), 2^d-1 of them have a
+   child (the set //x/ancestor::*, //x/parent::x, //x[x] must denote) and 2^d have none. ---- *)
+From XP.Proofs Require Import BigTree.
+
+Theorem C01_big_tree_descendants : forall d,
+  List.length (descendants (regdoc d) root_node) = 2 ^ (S d) - 1.
+Proof. exact regdoc_descendants. Qed.
+Print Assumptions C01_big_tree_descendants.
+
+Theorem C01_big_tree_inner : forall d, List.length (inner_paths (regdoc d)) = 2 ^ d - 1.
+Proof. exact regdoc_inner. Qed.
+Print Assumptions C01_big_tree_inner.
+
+Theorem C01_big_tree_leaves : forall d, List.length (leaf_paths (regdoc d)) = 2 ^ d.
+Proof. exact regdoc_leaves. Qed.
+Print Assumptions C01_big_tree_leaves.
+
+Theorem C01_big_tree_literals :
+  N.of_nat (List.length (below (regdoc 18))) = 524287%N /\ N.of_nat (List.length (inner_paths (regdoc 18))) = 262143%N.
+Proof. exact (conj regdoc18_elements regdoc18_inner). Qed.
+Print Assumptions C01_big_tree_literals.
